@@ -670,6 +670,29 @@ func probes() []Case {
 		res = append(res, Case{Kind: "https", Auth: true, Users: []User{{"75", "70"}}, Act: "P", Intent: in2, Probe: "f5-auth-one-segment",
 			Chunks: []string{hex.EncodeToString(append(append([]byte(nil), h...), early...))}})
 	}
+	// the whole conn.DialResult value space on the Abort paths: Code x Err, both SOCKS5 auth modes and HTTP CONNECT
+	for _, auth := range []bool{false, true} {
+		inA := &Intent{Addr: A{"d", hex.EncodeToString([]byte("t.example")), 443}, Cmd: 1, Methods: "00"}
+		var us []User
+		if auth {
+			inA.User, inA.Pass, inA.Methods = "75", "70", "02"
+			us = []User{{"75", "70"}}
+		}
+		s, _, err := clientStream(inA, auth)
+		if err != nil {
+			continue
+		}
+		for _, code := range []int{13, 101, 111, 113, 254} {
+			for _, e := range []string{"rejected", "opaque0", "errno1", fmt.Sprintf("werrno%d", code), "errno111", "dnsnf", "nil"} {
+				act := fmt.Sprintf("A%d:%s", code, e)
+				res = append(res, Case{Kind: "s5s", Auth: auth, TCP: true, Users: us, Loc: A{"4", "7f000001", 1080}, Act: act, Intent: inA,
+					Probe: "abort-dialresult", Chunks: []string{hex.EncodeToString(s)}})
+				if !auth {
+					res = append(res, Case{Kind: "https", Act: act, Intent: in, Probe: "abort-dialresult", Chunks: []string{hex.EncodeToString(head)}})
+				}
+			}
+		}
+	}
 	// SOCKS5 boundary probes: 255-byte everything, in one segment
 	u255 := strings.Repeat("61", 255)
 	p255 := strings.Repeat("62", 255)
